@@ -123,6 +123,17 @@ def run_case(spec, ctx):
                                                        joint_kinds=kinds, rest_start=bool(spec.get("rest_start")))
         if spec.get("rest_start") and spec["base"] != "origin":
             ctx.cls("base:starts_from_rest")
+        rbs = [b for b in bodies if hasattr(b, "B_Theta_C")]
+        if solver in ("Rattle", "Moreau", "BackwardEuler", "DualStormerVerlet") and len(rbs) >= 2 and rng.random() < 0.4:
+            # a collision guard between two links, added after the bodies (the usual order); the spheres are small enough never to
+            # touch: the chain's constraints and quaternions must be kept exactly as without it
+            from cardillo.contacts import Sphere2Sphere
+            i_, j_ = sorted(rng.choice(len(rbs), size=2, replace=False).tolist())
+            d_ = float(np.linalg.norm(rbs[i_].q0[:3] - rbs[j_].q0[:3]))
+            if d_ > 1e-3:
+                S.add(Sphere2Sphere(rbs[i_], rbs[j_], 1e-4 * d_, 1e-4 * d_, float(rng.uniform(0, 0.5)), e_N=0.0, e_F=0.0, name="guard"))
+                info["guard_contact"] = True
+                ctx.cls("chain:with_collision_guard")
         det = {**spec, **info, "nsteps": nsteps}
         try:
             if spec.get("no_cic"):
